@@ -22,6 +22,7 @@ import (
 	"encoding/json"
 	"fmt"
 	"io"
+	"net"
 	"time"
 
 	"github.com/zmap/zcrypto/tls"
@@ -42,6 +43,14 @@ type Cell struct {
 	SChain   string `json:"schain,omitempty"` // what the server sends after its leaf: "" | inter | rogueca
 	CChain   string `json:"cchain,omitempty"` // what the client sends after its leaf
 	RandSeed uint64 `json:"rand_seed"`
+	SName    string `json:"sname,omitempty"` // client Config.ServerName ("" = test.example); IP literals for the ip scenarios
+}
+
+func (c Cell) serverName() string {
+	if c.SName == "" {
+		return "test.example"
+	}
+	return c.SName
 }
 
 var keyA = map[string]string{"rsa": "rsaA", "p256": "p256A", "ed25519": "edA"}
@@ -70,6 +79,11 @@ func leafFor(kind, key, who string) []byte {
 	case "wrongname":
 		spec.DNS = []string{"other.example"}
 		spec.CN = "other.example"
+	case "wrongip":
+		// fine for test.example and for 10.0.0.1, 2001:db8::1; the client asks for another address
+		spec.IPs = []net.IP{net.ParseIP("10.0.0.1").To4(), net.ParseIP("2001:db8::1")}
+	case "goodip":
+		spec.IPs = []net.IP{net.ParseIP("10.0.0.2").To4(), net.ParseIP("2001:db8::2")}
 	case "wrongeku":
 		spec.EKU = []x509.ExtKeyUsage{x509.ExtKeyUsageServerAuth}
 	case "viainter":
@@ -233,7 +247,7 @@ func runCellShared(c *vh.Ctx, cell Cell, sh *shared, input interface{}) {
 	sc := &tls.Config{Certificates: []tls.Certificate{{Certificate: append([][]byte{sleaf}, chainTail(cell.SChain)...), PrivateKey: spriv}},
 		Time: pair.Clock, Rand: pair.NewRand(cell.RandSeed*2 + 2), SessionTicketsDisabled: true,
 		ClientAuth: tls.ClientAuthType(cell.Mode), ClientCAs: sh.clientCAs, CipherSuites: suiteFor(cell.Kx, cell.Key)}
-	cc := &tls.Config{MinVersion: cell.Vers, MaxVersion: cell.Vers, ServerName: "test.example", RootCAs: sh.rootCAs,
+	cc := &tls.Config{MinVersion: cell.Vers, MaxVersion: cell.Vers, ServerName: cell.serverName(), RootCAs: sh.rootCAs,
 		Time: pair.Clock, Rand: pair.NewRand(cell.RandSeed*2 + 1), SessionTicketsDisabled: true,
 		InsecureSkipVerify: cell.Skip, CipherSuites: suiteFor(cell.Kx, cell.Key), ForceSuites: cell.Kx != "tls13"}
 	// ---- client identity
@@ -266,7 +280,7 @@ func runCellShared(c *vh.Ctx, cell Cell, sh *shared, input interface{}) {
 	_, o.AppAlert = pair.Classify(r.ClientAppErr)
 	o.Done = r.AppOK
 	// ---- facts, re-derived with the standard library
-	chain, timeOK, nameOK := stdFacts(sleaf, chainTail(cell.SChain), "test.example", stdx509.ExtKeyUsageServerAuth)
+	chain, timeOK, nameOK := stdFacts(sleaf, chainTail(cell.SChain), cell.serverName(), stdx509.ExtKeyUsageServerAuth)
 	cChain := false
 	if cleaf != nil {
 		ch, tm, _ := stdFacts(cleaf, chainTail(cell.CChain), "", stdx509.ExtKeyUsageClientAuth)
@@ -274,7 +288,7 @@ func runCellShared(c *vh.Ctx, cell Cell, sh *shared, input interface{}) {
 	}
 	sf := vh.App("mkServerFacts", vh.Bool(chain), vh.Bool(timeOK), vh.Bool(nameOK), vh.Bool(keyMatches), vh.Bool(sigIntact))
 	cf := vh.App("mkClientFacts", vh.Bool(cPresents), vh.Bool(cChain), vh.Bool(cKeyMatches), vh.Bool(cSigIntact))
-	nk := fmt.Sprintf("%x|%s|%s|%v|%s|%d|%s|%s|%s|%s", cell.Vers, cell.Kx, cell.Key, cell.Skip, cell.Server, cell.Mode, cell.Client, cell.CKey, cell.SChain, cell.CChain)
+	nk := fmt.Sprintf("%x|%s|%s|%v|%s|%d|%s|%s|%s|%s", cell.Vers, cell.Kx, cell.Key, cell.Skip, cell.Server+cell.SName, cell.Mode, cell.Client, cell.CKey, cell.SChain, cell.CChain)
 	c.Case("case", vh.Pair(vh.Bool(cell.Skip), kxCoq(cell.Kx), sf, vh.NI(cell.Mode), cf, coqOutcome(o, cell.Kx == "rsa" && cell.Server == "wrongkey")), input, nk)
 	c.Stat("server."+cell.Server, 1)
 	// ---- direct oracle: the property on the implementation alone
@@ -490,6 +504,23 @@ func gen(c *vh.Ctx) {
 		}
 	}
 	c.Exhaustive("server certificate scenario (8) x InsecureSkipVerify x version TLS 1.0-1.3 x key exchange/key type")
+	// 1b. the server is named by an IP literal (Config.ServerName = address, [address]): the certificate must list
+	// that address as an iPAddress SAN; a certificate for the DNS name and for other addresses must be refused
+	for _, v := range versions {
+		for _, k := range combos(v) {
+			for _, sn := range []string{"10.0.0.2", "[10.0.0.2]", "2001:db8::2", "[2001:db8::2]"} {
+				for _, s := range []string{"wrongip", "goodip", "trusted"} {
+					for _, skip := range []bool{false, true} {
+						if skip && (s != "wrongip" || sn != "10.0.0.2") {
+							continue
+						}
+						run(Cell{Vers: v, Kx: k.kx, Key: k.key, Skip: skip, Server: s, Mode: 0, Client: "none", SName: sn})
+					}
+				}
+			}
+		}
+	}
+	c.Exhaustive("server named by an IP literal (4 spellings) x certificate {other addresses, this address, DNS name only} x version x key exchange/key type")
 	// 2. client authentication: every ClientAuthType x client scenario x version, trusted server
 	clientScn := []string{"none", "good", "untrusted", "expired", "wrongeku", "wrongkey", "corruptsig"}
 	for _, v := range versions {
